@@ -154,6 +154,38 @@ Theorem C06_setnf_errors : forall rx am s v,
 Proof. exact set_nf_errors. Qed.
 Print Assumptions C06_setnf_errors.
 
+(* ---------------- the same, for every state a script can reach ---------------- *)
+
+(* after ANY script, $i = t (1 <= i <= maxFieldIndex) makes the observable record
+   ($0, fields, NF) = (fields joined, fields padded with "" and field i = t, max(NF, i)) *)
+Theorem C06_reachable_setfield : forall rx am, engine_ok rx am ->
+  forall ops s, run rx am ops (init rx) = Ok s ->
+  forall s1 i t, ensure_fields rx am s = Ok s1 -> 1 <= i <= maxFieldIndex ->
+  exists s', set_field rx am s i t = Ok s' /\
+    view rx am s' = Ok (join_fields rx s (put (fields rx s1) i t), put (fields rx s1) i t,
+                        count_value (Z.max (zlen (fields rx s1)) i)).
+Proof. exact reachable_setfield. Qed.
+Print Assumptions C06_reachable_setfield.
+
+(* after ANY script, NF = v with 0 <= int(v) <= maxFieldIndex: fields cut or padded to int(v), $0 rebuilt *)
+Theorem C06_reachable_setnf : forall rx am, engine_ok rx am ->
+  forall ops s, run rx am ops (init rx) = Ok s ->
+  forall s1 v, ensure_fields rx am s = Ok s1 -> 0 <= f2i64 (vnum v) <= maxFieldIndex ->
+  exists s', set_nf rx am s v = Ok s' /\
+    view rx am s' = Ok (join_fields rx s (resize (f2i64 (vnum v)) (fields rx s1)),
+                        resize (f2i64 (vnum v)) (fields rx s1), v).
+Proof. exact reachable_setnf. Qed.
+Print Assumptions C06_reachable_setnf.
+
+(* after ANY script, $(x) reads $0 / the field from the front or the end / "" and changes nothing *)
+Theorem C06_reachable_getfield : forall rx am, engine_ok rx am ->
+  forall ops s, run rx am ops (init rx) = Ok s ->
+  forall x s' w l fl v, view rx am s = Ok (l, fl, v) ->
+  exec_op rx am s (GetField rx (IConst x)) = Ok (s', w) ->
+  w = OVal (if f2i64 x =? 0 then l else field_at fl (f2i64 x)) /\ view rx am s' = view rx am s.
+Proof. exact reachable_getfield. Qed.
+Print Assumptions C06_reachable_getfield.
+
 (* ---------------- getline $i ---------------- *)
 
 (* full statement (getline $i is the assignment $i = line): FALSE on the pinned tree (F-C06-2) *)
